@@ -255,6 +255,7 @@ func (e *Executor) setupDefaults() {
 
 func (e *Executor) setupConcurrencyState() {
 	e.executionHashes = make(map[string]context.Context)
+	e.executionWaits = make(map[string]map[string]int)
 
 	e.taskCallCount = make(map[string]*int32, e.Taskfile.Tasks.Len())
 	e.mkdirMutexMap = make(map[string]*sync.Mutex, e.Taskfile.Tasks.Len())
